@@ -50,7 +50,7 @@ CLAIMED = {
                 note="Canonical sources only (LF, repr floats, no '.' placeholders, no extra columns) so that C04's intended lazy/eager difference cannot appear; exceptions compare as raised / not raised.",
                 tech=TECH + "lock-step twin execution of operation histories on lazy vs eager tables (step-wise equality oracle)"),
     "C20": dict(engine="lazysim", cat="exploration", ref="§4 C20",
-                text="Seeded search over operation histories on file chunks (lazy and eager, whole or chunked origin, non-canonical text: signs, scientific floats, list-valued and genotype/extra columns): every operation is bracketed — the operands' observable state (length, every field value, the bytes the chunk would write) from a fresh replay of the history prefix must equal their state after the operation, and applying the operation twice must give equal results. An API actor additionally calls 39 registry functions (number<->text conversion in signed, unsigned, decimal and scientific batches; interval arithmetic incl. intersect, count_overlap, jaccard; Genome.get_intervals(...).get_mask/get_pileup/merged/clip/extended_to_size/sorted; table sort_by/concatenate/replace/indexing/tolist; reverse complement, k-mers, minimizers, match_string, translate; encoding changes) on live objects of the run under an argument snapshot.",
+                text="Seeded search over operation histories on file chunks (lazy and eager, whole or chunked origin, non-canonical text: signs, scientific floats, list-valued and genotype/extra columns): every operation is bracketed — the operands' observable state (length, every field value, the bytes the chunk would write) from a fresh replay of the history prefix must equal their state after the operation, and applying the operation twice must give equal results. An API actor additionally calls 46 registry functions (number<->text conversion in signed, unsigned, decimal and scientific batches; interval arithmetic incl. intersect, count_overlap, jaccard; Genome.get_intervals(...).get_mask/get_pileup/merged/clip/extended_to_size/sorted; table sort_by/concatenate/replace/indexing/tolist; reverse complement, k-mers, minimizers, match_string, translate; encoding changes) on live objects of the run under an argument snapshot.",
                 note="File-chunk clause decided by search; the registry clause is a monitor on sampled live objects, not a search over the registry's input space (stated in the evidence assumptions).",
                 tech=TECH + "snapshot bracket via fresh prefix replay around every operation of a simulated history + API actor on live objects"),
 }
